@@ -162,6 +162,68 @@ def setitemD (q : ObjD) (indx : List Entry) (rhs : RhsD) : OutcomeD :=
         | some ds1, some ds2 => .ok ⟨m', ds1 ++ ds2⟩
         | _, _ => .valueError
 
+/-! ### the whole-object path (indexer.py:101-150): indices made of True/False/None/Ellipsis/`:` -/
+
+/-- index items that are neither `None` nor the Ellipsis -/
+def usedCount (indx : List Entry) : Nat :=
+  (indx.filter fun e => match e with | .none => false | .ell => false | _ => true).length
+
+/-- is the whole-object path taken?  `_prep_scalar_index` must accept the index and, for an object
+    with a shape, the index must not have more items than the object has axes nor add axes with
+    `None` (unless it writes nothing anyway); otherwise the general path is taken (a shapeless
+    object raises IndexError). -/
+def wholePath (shape : Shape) (indx : List Entry) : Option SState :=
+  match scalarLoop {} indx with
+  | none => none
+  | some s =>
+    if !shape.isEmpty && (decide (usedCount indx > shape.length) ||
+        ((s.before ++ s.after).contains 1 && !(s.masked || s.sizeZero))) then none
+    else some s
+
+/-- `arg.broadcast_to(self._shape_)` (a shapeless target takes a right-hand side with one element) -/
+def bcastRhs (shape : Shape) (r : Rhs) : Option Obj :=
+  if shape.isEmpty then
+    if size r.shape == 1 then some ⟨[], fun _ => r.vals [], .all (r.mask.bit [])⟩ else none
+  else if bcast r.shape shape == some shape then
+    some ⟨shape, fun i => r.vals (bidx r.shape i),
+          match r.mask with
+          | .all b => .all b
+          | .arr a => .arr ⟨shape, fun i => a.get (bidx r.shape i)⟩⟩
+  else none
+
+/-- the whole-object assignment: values, mask and derivatives are replaced by the broadcast
+    right-hand side's; a derivative only the object has becomes zero (with the new mask) -/
+def setitemWhole (q : ObjD) (s : SState) (rhs : RhsD) : OutcomeD :=
+  if s.masked || s.sizeZero then .ok q
+  else
+    match bcastRhs q.main.shape rhs.main with
+    | none => .valueError
+    | some m' =>
+      let kept := q.derivs.map fun (kd : String × Obj) =>
+        match lookupD kd.1 rhs.derivs with
+        | some rd => (bcastRhs q.main.shape rd).map fun d => (kd.1, d)
+        | none => some (kd.1, zeroObj q.main.shape m'.mask)
+      let added := (rhs.derivs.filter fun kr => (lookupD kr.1 q.derivs).isNone).map
+        fun (kr : String × Rhs) => (bcastRhs q.main.shape kr.2).map fun d => (kr.1, d)
+      match (kept ++ added).mapM id with
+      | some ds => .ok ⟨m', ds⟩
+      | none => .valueError
+
+/-- `__setitem__`: the whole-object path when it applies, else the general path -/
+def setitemAny (q : ObjD) (indx : List Entry) (rhs : RhsD) : OutcomeD :=
+  match wholePath q.main.shape indx with
+  | some s => setitemWhole q s rhs
+  | none => if q.main.shape.isEmpty then .indexError else setitemD q indx rhs
+
+/-- one assignment of a sequence on an object with derivatives (any path); an assignment that
+    raises leaves the object as it was -/
+def stepAny (q : ObjD) (a : List Entry × RhsD) : ObjD :=
+  match setitemAny q a.1 a.2 with
+  | .ok q' => q'
+  | _ => q
+
+def assignAny (q : ObjD) (as : List (List Entry × RhsD)) : ObjD := as.foldl stepAny q
+
 /-- `self._mask_ = self._mask_.copy()` before writing (indexer.py:192-194, 218-219): the mask array
     the target shared stays as it was; the target is re-pointed to a fresh array.  Heap of mask
     arrays by identity. -/
